@@ -39,6 +39,7 @@ type Spec struct {
 	Assumptions []string  `json:"assumptions"`
 	Outside     []string  `json:"outside_the_claim"`
 	Stubs       []string  `json:"stubs"`
+	Cfg         map[string]interface{} `json:"cfg"` // defaults for every run of this spec/part
 	Parts       []Spec    `json:"parts"` // a property spanning several packages: one part per package
 }
 
@@ -166,6 +167,8 @@ func runCheck(prop, tier string, seed int64, only string) int {
 				continue
 			}
 			cfg := defaultConfig()
+			applyCfg(&cfg, spec.Cfg)
+			applyCfg(&cfg, part.Cfg)
 			applyCfg(&cfg, rs.Cfg)
 			ts := rs.Quick
 			if tier == "thorough" {
@@ -327,7 +330,7 @@ func writeEvidence(prop, tier string, seed int64, spec *Spec, eng *Engine, resul
 		entries = append(entries, map[string]interface{}{
 			"entry": er.Entry, "bounds": er.Params, "paths": ex.paths, "outcomes": oc, "decisions": ex.decs,
 			"max_decisions_on_a_path": ex.maxDecs, "instructions_executed": ex.steps,
-			"queries": map[string]int64{"feasibility_and_concretisation": ex.qFeas, "vc_by_solver": ex.vcSol, "vc_by_rewriting": ex.vcRew},
+			"queries": map[string]int64{"feasibility_and_concretisation": ex.qFeas, "vc_by_solver": ex.vcSol, "vc_by_rewriting": ex.vcRew, "vc_inherited_from_the_spawning_path": ex.vcInh},
 			"solver_queries": ex.solverQ, "solver_time_s": round2(ex.solverT.Seconds()), "wall_s": round2(er.WallS),
 			"covers": ex.covers, "cuts": ex.cuts, "missing_covers": er.Missing, "findings": fl,
 			"engine_bounds": map[string]interface{}{"unwind": er.Cfg.Unwind, "max_steps": er.Cfg.MaxSteps, "map_order": er.Cfg.MapOrder,
